@@ -9,15 +9,18 @@
 (*          outs = the DISTINCT outcomes seen over the engines, each       *)
 (*          [res, rows]: res = "ok" with the fetched rows, or              *)
 (*          "parse:<Type>" / "exec:<Type>" when parsing / executing raised *)
-(* Verdict per observation: <<wf, codes>> with, per outcome,               *)
+(* Verdict per observation: <<wf, codes, crash>> with, per outcome,        *)
 (*   1  rows is an allowed result of the statement over the database       *)
-(*   2  not allowed, but what the AS-IS rendering of cross joins yields    *)
-(*      (known deviation, classified by the driver from the input)         *)
 (*   0  rejected (wrong rows, or an exception on a well-formed statement)  *)
 (* wf = 1 iff the statement is WellFormed (the generator's promise; 0 is a *)
-(* machinery error in the driver, never a verdict about the code).         *)
+(* machinery error in the driver, never a verdict about the code); crash = *)
+(* the exception class the AS-IS model FactorsImpl predicts for parsing    *)
+(* this statement ("" = none) - used by the driver only to decide whether  *)
+(* a failure belongs to a listed finding.  A batch with "$asis" among its  *)
+(* lits is judged by the as-is rendering (second pass over rejected        *)
+(* observations, again only to attribute them to listed findings).         *)
 (***************************************************************************)
-EXTENDS RelAlg, Json, IOUtils, TLCExt
+EXTENDS RelAlg, FactorsImpl, Json, IOUtils, TLCExt
 Batch == JsonDeserialize(IOEnv.TRACE_FILE)
 BatchLits == Batch.lits
 N == Len(Batch.obs)
@@ -25,16 +28,12 @@ VARIABLES tid
 vars == <<tid>>
 Obs == Batch.obs[tid]
 Db == Batch.dbs[Obs.db]
-AsIsDb == [k \in DOMAIN Db \cup {CrossAsFull} |-> IF k \in DOMAIN Db THEN Db[k] ELSE <<>>]
 
-Code(out) == IF out.res # "ok" THEN 0
-             ELSE IF Accepts(Obs.ast, Db, out.rows) THEN 1
-             ELSE IF Accepts(Obs.ast, AsIsDb, out.rows) THEN 2
-             ELSE 0
+Code(out) == IF out.res = "ok" /\ Accepts(Obs.ast, Db, out.rows) THEN 1 ELSE 0
 Init == tid \in 1..N
 Next == UNCHANGED vars
 Spec == Init /\ [][Next]_vars
-Judge == TLCSet(tid, <<B(WellFormed(Obs.ast)), [i \in DOMAIN Obs.outs |-> Code(Obs.outs[i])]>>)
+Judge == TLCSet(tid, <<B(WellFormed(Obs.ast)), [i \in DOMAIN Obs.outs |-> Code(Obs.outs[i])], ImplHints(Obs.ast).crash>>)
 ASSUME \A i \in 1..N : TLCSet(i, <<>>)
 Post == \A i \in 1..N : PrintT(<<"VERDICT", i>> \o TLCGet(i))
 =============================================================================
